@@ -392,16 +392,29 @@ class Sandbox:
         interrupt = bool(crash) and crash[-1] == "int"
         counter = {"n": 0, "in_pipeline": False, "dead": False, "fired": False}
         at_launch = []
-        real = {"mkdir": os.mkdir, "rmdir": os.rmdir, "unlink": os.unlink}
+        # every way the script can change the file system below the sandbox is a mutation: an interruption point before it, and
+        # impossible once the process is gone (kill mode) - including what a `finally:` / atexit handler would like to clean up
+        real = {n_: getattr(os, n_) for n_ in ("mkdir", "rmdir", "unlink", "remove", "rename", "replace", "symlink", "link", "open")}
+        import builtins
+        real_open = builtins.open
         root_prefix = self.base + os.sep
+
+        def _below(x):
+            try:
+                return os.path.abspath(x if isinstance(x, str) else os.fsdecode(x)).startswith(root_prefix)
+            except TypeError:
+                return False  # (a file descriptor)
 
         def wrap(name):
             fn = real[name]
 
             def w(path, *a, **k):
                 if not counter["in_pipeline"]:
-                    p = path if isinstance(path, str) else os.fsdecode(path)
-                    relevant = k.get("dir_fd") is not None or os.path.abspath(p).startswith(root_prefix)
+                    if name == "open":
+                        flags = a[0] if a else k.get("flags", 0)
+                        relevant = _below(path) and bool(flags & (os.O_CREAT | os.O_WRONLY | os.O_RDWR | os.O_TRUNC | os.O_APPEND))
+                    else:
+                        relevant = k.get("dir_fd") is not None or _below(path) or (name in ("rename", "replace", "symlink", "link") and bool(a) and _below(a[0]))
                     if relevant:
                         if counter["dead"]:
                             raise Crash("the process is gone")  # kill: nothing of the script runs after the interruption
@@ -437,9 +450,26 @@ class Sandbox:
             finally:
                 counter["in_pipeline"] = False
 
+        def open_w(file, mode="r", *a, **k):
+            if not counter["in_pipeline"] and isinstance(mode, str) and any(c in mode for c in "wax+") and not isinstance(file, int) and _below(file):
+                # (counted like the other mutations by going through the os.open wrapper's bookkeeping)
+                wrap_open_probe(file)
+            return real_open(file, mode, *a, **k)
+
+        def wrap_open_probe(file):
+            if counter["dead"]:
+                raise Crash("the process is gone")
+            if crash and crash[0] == "script" and counter["n"] == crash[1] and not counter["fired"]:
+                counter["fired"] = True
+                counter["dead"] = not interrupt
+                raise Crash(f"interrupted before open-for-writing #{counter['n']}")
+            counter["n"] += 1
+
         saved_cc = mod.subprocess.check_call
         saved_argv = sys.argv
-        os.mkdir, os.rmdir, os.unlink = wrap("mkdir"), wrap("rmdir"), wrap("unlink")
+        for n_ in real:
+            setattr(os, n_, wrap(n_))
+        builtins.open = open_w
         mod.subprocess.check_call = check_call
         cwd0 = os.getcwd()
         scr, outd = self.input, self.root
@@ -473,7 +503,9 @@ class Sandbox:
             res["outcome"] = "error"
             res["error"] = short_exc(exc)
         finally:
-            os.mkdir, os.rmdir, os.unlink = real["mkdir"], real["rmdir"], real["unlink"]
+            for n_, f_ in real.items():
+                setattr(os, n_, f_)
+            builtins.open = real_open
             mod.subprocess.check_call = saved_cc
             sys.argv = saved_argv
             os.chdir(cwd0)
